@@ -27,6 +27,13 @@ func classifyMapRange(fd *ast.FuncDecl, rs *ast.RangeStmt, info *types.Info) (st
 	classes := map[string]bool{}
 	bad := ""
 	collected := map[types.Object]bool{}
+	// keyFields: for a collected slice whose elements are struct literals, the fields that hold the map's key (the only
+	// component of an element that is unique); nil entry = the element is not a struct literal built from the key
+	keyFields := map[types.Object]map[string]bool{}
+	var rangeKey types.Object
+	if id, ok := rs.Key.(*ast.Ident); ok && id.Name != "_" {
+		rangeKey = info.ObjectOf(id)
+	}
 	var stmts func(list []ast.Stmt)
 	isPureExpr := func(e ast.Expr) bool {
 		pure := true
@@ -63,6 +70,27 @@ func classifyMapRange(fd *ast.FuncDecl, rs *ast.RangeStmt, info *types.Info) (st
 								if obj := info.ObjectOf(lid); obj != nil {
 									collected[obj] = true
 									classes["collect"] = true
+									if rangeKey != nil && len(call.Args) == 2 {
+										el := call.Args[1]
+										if u, ok := el.(*ast.UnaryExpr); ok && u.Op == token.AND {
+											el = u.X
+										}
+										if cl, ok := el.(*ast.CompositeLit); ok {
+											kf := map[string]bool{}
+											for _, e := range cl.Elts {
+												if kv, ok := e.(*ast.KeyValueExpr); ok {
+													if k, ok := kv.Key.(*ast.Ident); ok {
+														if v, ok := kv.Value.(*ast.Ident); ok && info.ObjectOf(v) == rangeKey {
+															kf[k.Name] = true
+														}
+													}
+												}
+											}
+											if len(kf) > 0 {
+												keyFields[obj] = kf
+											}
+										}
+									}
 									return
 								}
 							}
@@ -193,6 +221,7 @@ func classifyMapRange(fd *ast.FuncDecl, rs *ast.RangeStmt, info *types.Info) (st
 	}
 	if classes["collect"] {
 		// every collected slice must be sorted after the loop, in the same function
+		nonKeySort := ""
 		for obj := range collected {
 			sorted := false
 			ast.Inspect(fd, func(n ast.Node) bool {
@@ -205,19 +234,47 @@ func classifyMapRange(fd *ast.FuncDecl, rs *ast.RangeStmt, info *types.Info) (st
 					return true
 				}
 				if f, ok := info.Uses[sel.Sel].(*types.Func); ok && f.Pkg() != nil && (f.Pkg().Path() == "sort" || f.Pkg().Path() == "slices") && strings.Contains(f.Name(), "Sort") || (ok && f.Pkg() != nil && f.Pkg().Path() == "sort" && (f.Name() == "Slice" || f.Name() == "Strings" || f.Name() == "Ints" || f.Name() == "Stable")) {
+					mentions := false
 					for _, a := range call.Args {
 						ast.Inspect(a, func(m ast.Node) bool {
 							if id, ok := m.(*ast.Ident); ok && info.ObjectOf(id) == obj {
-								sorted = true
+								mentions = true
 							}
 							return true
 						})
+					}
+					if mentions {
+						sorted = true
+						// elements are struct literals carrying the map key: a comparator given as a function literal
+						// must order by (one of) the key field(s) — any other field can tie, and ties keep the random
+						// iteration order
+						if kf := keyFields[obj]; kf != nil {
+							for _, a := range call.Args {
+								fl, ok := a.(*ast.FuncLit)
+								if !ok {
+									continue
+								}
+								usesKey := false
+								ast.Inspect(fl, func(m ast.Node) bool {
+									if se, ok := m.(*ast.SelectorExpr); ok && kf[se.Sel.Name] {
+										usesKey = true
+									}
+									return true
+								})
+								if !usesKey {
+									nonKeySort = obj.Name()
+								}
+							}
+						}
 					}
 				}
 				return true
 			})
 			if !sorted {
 				return "order-dependent", "collects into slice `" + obj.Name() + "` that is not sorted afterwards in the same function"
+			}
+			if nonKeySort != "" {
+				return "order-dependent", "slice `" + nonKeySort + "` of elements built from the map key is sorted by a comparator that does not read the key field: elements that tie keep the random iteration order"
 			}
 		}
 		delete(classes, "collect")
